@@ -13,6 +13,10 @@ SA = "matid.symmetry.symmetryanalyzer.SymmetryAnalyzer"
 FQ = SA + "._get_wyckoff_sets"
 
 
+class SolverSign(Exception):
+    """the solver adds the constant of the expression instead of subtracting it"""
+
+
 # ----------------------------------------------------------------------------- R08.2
 def _parse_rhs(rhs, idx, icomp, stmt):
     """(R[i] - C[j]) [/ M[idx][icomp]] -> (r_role, c_role, scaled, Mname, Cname)"""
@@ -25,6 +29,8 @@ def _parse_rhs(rhs, idx, icomp, stmt):
         mname = norm(d.value.value)
         scaled = True
         rhs = rhs.left
+    if isinstance(rhs, ast.BinOp) and isinstance(rhs.op, ast.Add) and isinstance(rhs.left, ast.Subscript) and isinstance(rhs.right, ast.Subscript):
+        raise SolverSign(stmt)
     if not (isinstance(rhs, ast.BinOp) and isinstance(rhs.op, ast.Sub) and isinstance(rhs.left, ast.Subscript)
             and isinstance(rhs.right, ast.Subscript)):
         raise AnalysisError(f"solver right-hand side `{norm(stmt.value)}` is not of the form R[i] - C[j]")
@@ -136,7 +142,14 @@ def find_solver(M):
 
 
 def r08_2(rep, M, T, rid):
-    sv = find_solver(M)
+    try:
+        sv = find_solver(M)
+    except SolverSign as e:
+        st = e.args[0]
+        rep.violation(rid, f"_get_wyckoff_sets: `{norm(st)[:60]}`", "the variable is computed as coordinate *plus* the constant of the expression: for x' = x + c the parameter is "
+                      "x' - c; every position whose representative carries a non-zero constant gets a parameter that is off by 2c, fails the plausibility test and the search "
+                      "ends in ValueError", M.where(FQ, st))
+        return
     rep.note(f"solver recognised: {sv['text']}")
     if not (sv["first_M"] and sv["first_C"]):
         rep.violation(rid, "solver operands", "M / C used by the solver are not the first representative "
@@ -466,6 +479,7 @@ def run(rep, ctx):
     TO.expr_matrices(rep, T, "R08.1")
     with rep.guard("R08.2"):
         search_norm_axis(rep, M, "R08.2")
+        search_fold_direction(rep, M, "R08.2")
         variables_left_operand(rep, M, "R08.2")
         r08_2(rep, M, T, "R08.2")
     TO.orbit_closure(rep, T, "R08.3")
@@ -561,6 +575,34 @@ def variables_left_operand(rep, M, rid):
                           "set are not regenerated and the parameter search fails with ValueError", M.where(fq, c))
     if n < 2:
         raise AnalysisError(f"_get_wyckoff_sets: products with the variable vector found at {n} site(s); plausibility test and batched evaluation expected")
+
+
+def search_fold_direction(rep, M, rid):
+    """_search_periodic_positions: a fractional displacement component above +1/2 is lowered by one, a component below -1/2 raised by one (nearest
+    image); folding in the other direction doubles the excess instead of removing it"""
+    fq = SA + "._search_periodic_positions"
+    fn = M.func(fq)
+    body = [s2 for s2 in ast.walk(fn) if isinstance(s2, ast.Assign)]
+    n = 0
+    for k, s2 in enumerate(body):
+        if not (isinstance(s2.value, ast.Call) and (M.ext_name(fq, s2.value.func) or "") == "numpy.where" and s2.value.args and isinstance(s2.value.args[0], ast.Compare)):
+            continue
+        cmp_ = s2.value.args[0]
+        mask = norm(s2.targets[0])
+        upd = next((u for u in body[k + 1:] if isinstance(u.targets[0], ast.Subscript) and norm(u.targets[0].slice) == mask and isinstance(u.value, ast.BinOp)
+                    and isinstance(u.value.right, ast.Constant) and u.value.right.value == 1), None)
+        if upd is None:
+            continue
+        n += 1
+        above = isinstance(cmp_.ops[0], (ast.Gt, ast.GtE))
+        lowers = isinstance(upd.value.op, ast.Sub)
+        if above == lowers:
+            rep.ok(rid, f"_search_periodic_positions: `{norm(cmp_)}` -> `{norm(upd)[:50]}`")
+        else:
+            rep.violation(rid, f"_search_periodic_positions: `{norm(upd)[:60]}`", f"components selected by `{norm(cmp_)}` are moved *away* from zero: the displacement to the "
+                          "nearest periodic image grows to more than a lattice vector, an atom across the cell face is never matched and the parameter search fails", M.where(fq, upd))
+    if n < 2:
+        raise AnalysisError(f"_search_periodic_positions: nearest-image folds recognised at {n} site(s) (2 expected)")
 
 
 def search_norm_axis(rep, M, rid):
